@@ -143,8 +143,6 @@ class PerishableInventory(Entity):
         return self._handle_consume(event)
 
     def _handle_spoilage_check(self) -> list[Event]:
-        from happysimulator.core.temporal import Instant
-
         now = self.now
         spoiled = 0
 
@@ -182,10 +180,11 @@ class PerishableInventory(Entity):
         results.extend(self._check_reorder())
 
         # Schedule next spoilage check
-        now_s = now.to_seconds()
+        # (integer clock arithmetic: a float round trip of `now` can truncate the
+        # next sweep back onto the current instant)
         results.append(
             Event(
-                time=Instant.from_seconds(now_s + self.spoilage_check_interval_s),
+                time=now + self.spoilage_check_interval_s,
                 event_type=_SPOILAGE_CHECK,
                 target=self,
                 daemon=True,
